@@ -169,6 +169,13 @@ def check_variant(v, rts, sid, nodes, iam, alleles_arg, fail):
             st = v.states().tolist()
             if st != ["N" if s is None else s for s in states]:
                 fail("variant:states", f"{st} expected {states}")
+            # a missing-data string longer than every allele at the site, and an empty one
+            for mds in ("<missing>", "", "0?"):
+                if mds not in real:
+                    st = v.states(missing_data_string=mds).tolist()
+                    if st != [mds if s is None else s for s in states]:
+                        fail("variant:states:missing_data_string", f"states(missing_data_string={mds!r}) = {st} expected "
+                             f"{[mds if s is None else s for s in states]}")
 
 
 def variants_call(ts, kw):
